@@ -433,15 +433,15 @@ func (r *resolver) applyDeviation(y *Module, d *Deviation) error {
 	}
 	if d.Delete != nil {
 		if d.Delete.units != "" {
-			if hasType.Units() == d.Delete.units {
+			if hasType.Units() != d.Delete.units {
 				return fmt.Errorf("cannot delete units '%s' != '%s' on %s",
 					d.Delete.units, hasType.Units(), d.Ident())
 			}
 			hasType.setUnits("")
 		}
 		if d.Delete.HasDefault() {
-			if hasType.DefaultValue() == d.Delete.DefaultValue() {
-				return fmt.Errorf("cannot delete units '%s' != '%s' on %s",
+			if !isDefaultEqual(hasType.DefaultValue(), d.Delete.Default()) {
+				return fmt.Errorf("cannot delete default '%s' != '%s' on %s",
 					d.Delete.Default(), hasType.DefaultValue(),
 					d.Ident())
 			}
@@ -482,6 +482,25 @@ func (r *resolver) applyDeviation(y *Module, d *Deviation) error {
 
 	}
 	return nil
+}
+
+// compare default of a leaf (string) or leaf-list ([]string) to the values to delete
+func isDefaultEqual(actual interface{}, toDelete []string) bool {
+	switch x := actual.(type) {
+	case string:
+		return len(toDelete) == 1 && toDelete[0] == x
+	case []string:
+		if len(x) != len(toDelete) {
+			return false
+		}
+		for i := range x {
+			if x[i] != toDelete[i] {
+				return false
+			}
+		}
+		return true
+	}
+	return false
 }
 
 func isArrayStringEqual(a []string, b []string) bool {
